@@ -31,7 +31,7 @@ parse_command = Fn(FD, "parse_command", slot="driver", ret="res", key="driver::p
         C("one_output_group_per_argument_group_each_accepted_by_the_option_parser", "res is Ok ==> (res->Ok_0).output_groups@.len() == %s && (forall|i: int| 0 <= i < %s ==> (#[trigger] parsed_group(args@, i)) is Some)" % (N, N), ["C18"]),
         C("each_group_is_what_its_own_options_say_with_the_documented_defaults_and_a_safe_derived_name",
           "res is Ok ==> (forall|i: int| 0 <= i < %s ==> group_ok(#[trigger] (res->Ok_0).output_groups@[i], m(args@, i), (res->Ok_0).input_filenames@))" % N, ["C18"]),
-        C("global_options_are_honoured_wherever_they_appear", "res is Ok ==> globals(res->Ok_0, args@, %s)" % N, ["C18", "C16", "C09", "C08"]),
+        C("global_options_are_honoured_wherever_they_appear", "res is Ok ==> globals(res->Ok_0, args@, %s)" % N, ["C18", "C16", "C09", "C08", "C14"]),
     ],
     rewrites=[
         Rewrite(r"args\[1\.\.\]\s*\.split\(\|arg\| arg == \"--\"\)\s*\.collect::<Vec<_>>\(\)", "verif_split_groups(args)", regex=True, rule="R16",
@@ -48,12 +48,11 @@ parse_command = Fn(FD, "parse_command", slot="driver", ret="res", key="driver::p
         Rewrite("&define_arg)?", "define_arg.as_str())?", rule="R16", why="deref coercion written out"),
         Rewrite("parsed.opt_str(\"color\").as_ref().map(|s| s.as_ref())", "verif_opt_as_str(&parsed.opt_str(\"color\"))", rule="R16", why="`OPTION<String>.as_ref().map(|s| s.as_ref())` -> prelude function (proved: the text, borrowed)"),
         Rewrite("t.parse::<usize>()", "verif_parse_usize(&t)", rule="R16", why="`str::parse::<usize>()` -> prelude wrapper (ASSUMED: a function of the text)"),
-        Rewrite(r"for input_filename in parsed\.free\.into_iter\(\)\s*\{\s*command\.input_filenames\.push\(input_filename\);\s*\}", "verif_push_all(&mut command.input_filenames, parsed.free);", regex=True, rule="R21",
-                why="`for x in V.into_iter() { W.push(x) }` -> prelude function (proved: W extended by the elements of V, in order)"),
+        Rewrite("for input_filename in parsed.free.into_iter()", "for input_filename in it: parsed.free.into_iter()", rule="R5", why="ghost iterator named"),
         Rewrite("command.input_filenames.contains(&derived_filename)", "verif_contains_text(&command.input_filenames, &derived_filename)", rule="R16", why="`Vec<String>::contains` -> prelude wrapper (ASSUMED: some element has the same text)"),
     ],
     inserts=[Insert("\t\tlet mut group = CommandOutput {", "\t\tlet ghost pm = parsed;\n\t\tproof { assert(parsed_group(args@, k as int) == Some(pm)); }\n", where="before", why="ghost name for this group's matches")],
-    for_to_while=[1, 2, 3],
+    for_to_while=[1, 2, 4],
     loops={
         1: Loop(invariant=[
                 C("groups", "verif_next_1 <= verif_vec_1@.len() && verif_vec_1@.len() == %s && (forall|i: int| 0 <= i < verif_vec_1@.len() ==> (#[trigger] verif_vec_1@[i])@ == arg_groups(args@)[i]) && parse_opts == the_opts() && *report == *old(report)" % N),
@@ -61,7 +60,7 @@ parse_command = Fn(FD, "parse_command", slot="driver", ret="res", key="driver::p
                 C("globals_so_far", "globals(command, args@, verif_next_1 as int)"),
             ], decreases="verif_vec_1@.len() - verif_next_1",
             body_start=" let ghost k = verif_next_1; let ghost d0 = command.opts.driver_symbol_defs@; proof { reveal_strlit(\"on\"); reveal_strlit(\"off\"); assert(\"off\"@.len() == 3 && \"on\"@.len() == 2); }",
-            body_end=" proof { let n1 = k as int + 1; assert(m(args@, n1 - 1) == pm); assert(def_texts(args@, n1) == def_texts(args@, n1 - 1) + pm.strs_of(\"d\"@)); }"),
+            body_end=" proof { let n1 = k as int + 1; assert(m(args@, n1 - 1) == pm); assert(command.input_filenames@ == in0 + pm.free@); assert(in0 == inputs(args@, k as int)); assert(command.opts == c2.opts && command.quiet == c2.quiet && command.use_colors == c2.use_colors && command.show_help == c2.show_help && command.show_version == c2.show_version); assert(def_texts(args@, n1) == def_texts(args@, n1 - 1) + pm.strs_of(\"d\"@)); }"),
         2: Loop(invariant=[
                 C("defs", "verif_defs@.len() == pm.strs_of(\"d\"@).len() && (forall|i: int| 0 <= i < verif_defs@.len() ==> (#[trigger] verif_defs@[i])@ == pm.strs_of(\"d\"@)[i]) && verif_vec_2@ == verif_defs@ && verif_next_2 <= verif_vec_2@.len() && *report == *old(report) && same_but_defs(command, c0) && command.opts.driver_symbol_defs@.len() == d0.len() + verif_next_2"),
                 C("defs_so_far", "(forall|j: int| 0 <= j < d0.len() ==> command.opts.driver_symbol_defs@[j] == d0[j]) && (forall|j: int| 0 <= j < verif_next_2 ==> is_define(#[trigger] pm.strs_of(\"d\"@)[j], command.opts.driver_symbol_defs@[d0.len() + j]))"),
@@ -69,9 +68,12 @@ parse_command = Fn(FD, "parse_command", slot="driver", ret="res", key="driver::p
             body_start=" let ghost defs0 = command.opts.driver_symbol_defs@;",
             body_end=" proof { let j = verif_next_2 - 1; assert(verif_defs@[j]@ == pm.strs_of(\"d\"@)[j]); assert(command.opts.driver_symbol_defs@ == defs0.push(command.opts.driver_symbol_defs@[d0.len() + j])); assert(is_define(pm.strs_of(\"d\"@)[j], command.opts.driver_symbol_defs@[d0.len() + j])); }"),
         3: Loop(invariant=[
-                C("frame", "verif_next_3 <= command.output_groups@.len() && command.output_groups@.len() == %s && *report == *old(report) && same_but_groups(command, c1)" % N),
-                C("defaults_so_far", "(forall|i: int| 0 <= i < verif_next_3 ==> group_ok(#[trigger] command.output_groups@[i], m(args@, i), command.input_filenames@)) && (forall|i: int| verif_next_3 <= i < %s ==> group_raw(#[trigger] command.output_groups@[i], m(args@, i)))" % N),
-            ], decreases="command.output_groups@.len() - verif_next_3",
+                C("inputs_so_far", "it.seq() == pm.free@ && command.input_filenames@ == in0 + it.history() && same_but_inputs(command, c2) && *report == *old(report)"),
+            ], before="\t\tlet ghost c2 = command; let ghost in0 = command.input_filenames@;"),
+        4: Loop(invariant=[
+                C("frame", "verif_next_4 <= command.output_groups@.len() && command.output_groups@.len() == %s && *report == *old(report) && same_but_groups(command, c1)" % N),
+                C("defaults_so_far", "(forall|i: int| 0 <= i < verif_next_4 ==> group_ok(#[trigger] command.output_groups@[i], m(args@, i), command.input_filenames@)) && (forall|i: int| verif_next_4 <= i < %s ==> group_raw(#[trigger] command.output_groups@[i], m(args@, i)))" % N),
+            ], decreases="command.output_groups@.len() - verif_next_4",
             before="\tlet ghost c1 = command;"),
     },
 )
@@ -82,6 +84,6 @@ UNIT = Unit(
         Type(FA, "struct", "AssemblyOptions", slot="asm"), Type(FA, "struct", "DriverSymbolDef", slot="asm"), opts_new,
         Type(FD, "enum", "OutputFormat", slot="driver", derive="Clone, Copy"), Type(FD, "struct", "Command", slot="driver"), Type(FD, "struct", "CommandOutput", slot="driver"),
         make_opts, parse_output_format, parse_define_arg, derive, parse_command],
-    serves=["C18", "C03"],
+    serves=["C18", "C03", "C14"],
     description="driver::parse_command: groups, global options, default formats and derived output names",
 )
